@@ -39,23 +39,6 @@ WHAT = {
 }
 
 
-def nonfinite_state(built):
-    """some read accessor of the original returned a non-finite value (e.g. a stored ln(0) = -inf)"""
-    return any(not all(q["cok"]) for q in answered(built["obs"]) if q["name"] not in ("predict", "predict_oob", "main"))
-
-
-def key_of(built, e, clause, alt):
-    t = built["type"]
-    if clause in ("DeFails", "SerFails") and e.get("fmt") in ("json", "jsonperm") and nonfinite_state(built):
-        return "json: model state contains -inf (%s %s)" % (t, built["cfg"])
-    if clause == "EqOther":
-        return "%s: == holds against a model fitted on %s data whose predictions differ" % (
-            t, {"shift": "translated", "indep": "independent", "rowsonly": "rows-only-changed"}.get(alt, alt))
-    if clause in ("EqRestored", "EqPanics", "EqRefit", "EqSelf"):
-        return "%s [%s]: %s %s" % (t, built["cfg"], clause, e.get("fmt", "-"))
-    return "%s [%s]: %s %s" % (t, built["cfg"], clause, e.get("fmt", "-"))
-
-
 def answered(o):
     """the per-method parts of an observation that were answered"""
     return [p for p in o.get("parts", []) if p["status"] == "ok"] if o["status"] == "ok" else []
@@ -66,6 +49,48 @@ def differ(o1, o2):
         return False
     return any(p["status"] == "ok" and q["status"] == "ok" and any(p[k] != q[k] for k in ("dh", "dl", "ch", "cl", "shape"))
                for p, q in zip(o1["parts"], o2["parts"]))
+
+
+def _is_nan(hi, lo):
+    hi &= 0xffffffff
+    return (hi & 0x7ff00000) == 0x7ff00000 and ((hi & 0x000fffff) != 0 or (lo & 0xffffffff) != 0)
+
+
+def state_class(built):
+    """'NaN' / '-inf' when a read accessor of the ORIGINAL returned such a value (the stored state contains it), else ''"""
+    nan = inf = False
+    for q in answered(built["obs"]):
+        if q["name"] in ("predict", "predict_oob", "main", "transform", "decision_function", "distance"):
+            continue
+        for ok, hi, lo in zip(q["cok"], q["ch"], q["cl"]):
+            if not ok:
+                if _is_nan(hi, lo):
+                    nan = True
+                else:
+                    inf = True
+    return "NaN" if nan else ("-inf" if inf else "")
+
+
+HOWS = {"shift": "translated", "indep": "independent", "rowsonly": "rows-only-changed", "prefix": "a strict prefix of the",
+        "extension": "a strict extension of the"}
+
+
+def key_of(built, e, clause, alt, alt_ev=None):
+    t = built["type"]
+    sc = state_class(built)
+    if clause == "EqOther" and (sc == "NaN" or (alt_ev is not None and state_class(alt_ev) == "NaN")):
+        return "eq: NaN-blind ==, a %s whose state contains NaN equals a different model" % t
+    if clause in ("DeFails", "SerFails") and e.get("fmt") in ("json", "jsonperm") and sc:
+        # the configuration is part of the input class only where it causes the value (no smoothing)
+        return "json: model state contains %s (%s%s)" % (sc, t, " " + built["cfg"] if built["cfg"].startswith("alpha") else "")
+    if clause in ("EqSelf", "EqRestored", "EqRefit") and sc == "NaN":
+        return "eq: model state contains NaN (%s %s)" % (t, built["cfg"])
+    if clause == "EqOther":
+        rev = alt.endswith("-rev")
+        a = alt[:-4] if rev else alt
+        return "%s: == holds against a model fitted on %s data whose predictions differ%s" % (
+            t, HOWS.get(a, a), " (other == model)" if rev else "")
+    return "%s [%s]: %s %s" % (t, built["cfg"], clause, e.get("fmt", "-"))
 
 
 def nontrivial(hist):
@@ -124,7 +149,8 @@ def run(ctx):
         h = hist[runid]
         built = h[0]
         alt = e.get("fmt") if ev == "Eq" and e.get("kind") in ("other", "refit") else None
-        ctx.report(key_of(built, e, clause, alt),
+        alt_ev = events[l - 2] if alt is not None and l >= 2 and events[l - 2]["ev"] == "Alt" else None
+        ctx.report(key_of(built, e, clause, alt, alt_ev),
                    "%s [%s], n=%d p=%d: %s" % (built["type"], built["cfg"], built["n"], built["p"], WHAT.get(clause, clause)), h)
     drift = v.get("hits", {}).get("StateDrift", 0)
     if drift:
